@@ -188,7 +188,10 @@ class PtnFilterChord(PtnFilter):
             A boolean on filter result
         """
 
-        return data not in self.ar if self.invert_filter else data in self.ar
+        # Row membership: numpy's ``in`` is an element-wise any(), which accepts
+        # any data sharing a single position with some row of self.ar
+        is_in = bool((np.asarray(self.ar) == np.asarray(data)).all(axis=-1).any())
+        return not is_in if self.invert_filter else is_in
 
     class Option:
         """The methods available to use in fromChord
